@@ -210,7 +210,10 @@ Proof.
     assert (Hnc : is_kind "ColumnRef" (kid "Val" res) = false).
     { unfold opaque_kind in Hop. cbn [mem_str] in Hop. apply Bool.negb_true_iff in Hop.
       apply Bool.orb_false_iff in Hop. destruct Hop as [Hop _]. unfold is_kind. exact Hop. }
-    rewrite Hnc. eexists. split; [reflexivity|]. constructor; [|constructor].
+    assert (Hsl : is_kind "SubLink" (kid "Val" res) = false).
+    { unfold opaque_kind in Hop. cbn [mem_str] in Hop. apply Bool.negb_true_iff in Hop.
+      repeat (apply Bool.orb_false_iff in Hop; destruct Hop as [? Hop]). unfold is_kind. assumption. }
+    rewrite Hnc, Hsl. cbn [andb]. eexists. split; [reflexivity|]. constructor; [|constructor].
     split; [|exact I]. cbn [sc_name sc_src]. rewrite Hn. unfold res_name.
     destruct (str_opt "Name" res); reflexivity.
 Qed.
